@@ -466,6 +466,7 @@ func runC16(c *Ctx) {
 	}
 	checkReadCountConsumed(c, "put.count-before-eof")
 	checkLocalfsDeleteOnlyKey(c, "delete.only-the-key")
+	checkGenericErrorDiscipline(c, "pkg/storage/localfs", "pkg/storage")
 }
 
 // shortCircuitProtects: in `err != nil || <uses info>` (or `err == nil && <uses info>`) the use of info is evaluated
@@ -782,6 +783,7 @@ func runC19(c *Ctx) {
 		c.check(okMax, "lookback.max-capped", lt.ID+":passed", p.Pos(lt.Decl.Pos()), "the (capped) max is the page size of the listing", "the capped max is no longer the page size of the listing")
 	}
 	checkWALDecoderAcceptsWhatAddStores(c, "codec-pairing.decoder-accepts")
+	checkGenericErrorDiscipline(c, "pkg/wal", "pkg/model")
 }
 
 func enumPutSitesAny(p *Prog, pkgs ...string) []putSite { return enumPutSites(p, pkgs...) }
